@@ -14,7 +14,7 @@ import copy
 import os
 from typing import Dict, Optional
 
-from .nf import normal_form, module_consts, Unsupported
+from .nf import normal_form, module_consts, Unsupported, _is_simple_helper
 
 REF_ROOT = os.path.join(os.path.dirname(os.path.dirname(os.path.abspath(__file__))), "reference")
 _REF_CACHE: Dict[str, Optional[ast.Module]] = {}
@@ -97,6 +97,9 @@ def _equivalent(ref_fn, cur_fn, ref_mod, cur_mod, ref_units, cur_units, qual, fo
                 break
         for q, f in units_mine.items():
             if q in units_other:
+                # a small loop-free module-level function that is the same on both sides is seen through on both sides
+                if "." not in q and q != qual and len(f.body) <= 8 and _is_simple_helper(f) and ast.dump(f) == ast.dump(units_other[q]):
+                    h[f.name] = f
                 continue
             if "." not in q:
                 h[f.name] = f
